@@ -53,6 +53,9 @@ class EnumMember(Stub):
     def __ne__(self, o):
         return not self.__eq__(o)
 
+    def _abs_is(self, o):
+        return isinstance(o, EnumMember) and (o.cls, o.name) == (self.cls, self.name)   # members are singletons
+
     def __hash__(self):
         return hash(("EnumMember", self.cls, self.name))
 
